@@ -95,7 +95,7 @@ func (l *lexer) Next() Token {
 		// At the end of the token stream,
 		// emit a synthetic EOF token
 
-		endPos := l.endPos()
+		endPos, _ := l.endPos()
 		pos := ast.NewPosition(
 			l.memoryGauge,
 			l.endOffset-1,
@@ -262,7 +262,7 @@ func (l *lexer) emit(ty TokenType, spaceOrError any, rangeStart ast.Position, co
 		panic(TokenLimitReachedError{})
 	}
 
-	endPos := l.endPos()
+	endPos, lastRune := l.endPos()
 
 	token := Token{
 		Type:         ty,
@@ -286,9 +286,8 @@ func (l *lexer) emit(ty TokenType, spaceOrError any, rangeStart ast.Position, co
 		l.startOffset = l.endOffset
 
 		l.startPos = endPos
-		r, _ := utf8.DecodeRune(l.input[l.endOffset-1:])
 
-		if r == '\n' {
+		if lastRune == '\n' {
 			l.startPos.line++
 			l.startPos.column = 0
 		} else {
@@ -306,25 +305,32 @@ func (l *lexer) startPosition() ast.Position {
 	)
 }
 
-func (l *lexer) endPos() position {
+// endPos returns the position of the last rune of the current word,
+// and the last rune itself.
+func (l *lexer) endPos() (endPos position, lastRune rune) {
 	startOffset := l.startOffset
 	endOffset := l.endOffset
 
-	endPos := l.startPos
+	endPos = l.startPos
+	lastRune = EOF
 
 	var w int
-	for offset := startOffset; offset < endOffset-1; offset += w {
+	for offset := startOffset; offset < endOffset; offset += w {
 
-		var r rune
-		b := l.input[offset:]
-		r, w = utf8.DecodeRune(b)
-
-		// fallback to 1 byte width if decoding fails
-		if w <= 0 {
-			w = 1
+		// the end of the input is treated as a rune of 1 byte width (see next),
+		// just like a byte that fails to decode
+		lastRune, w = EOF, 1
+		if offset < len(l.input) {
+			lastRune, w = utf8.DecodeRune(l.input[offset:])
 		}
 
-		if r == '\n' {
+		// The end position is the position of the last rune,
+		// which might be encoded in multiple bytes
+		if offset+w >= endOffset {
+			break
+		}
+
+		if lastRune == '\n' {
 			endPos.line++
 			endPos.column = 0
 		} else {
@@ -332,7 +338,7 @@ func (l *lexer) endPos() position {
 		}
 	}
 
-	return endPos
+	return endPos, lastRune
 }
 
 func (l *lexer) emitType(ty TokenType) {
@@ -344,7 +350,7 @@ func (l *lexer) emitType(ty TokenType) {
 func (l *lexer) emitError(err error) {
 	common.UseMemory(l.memoryGauge, common.ErrorTokenMemoryUsage)
 
-	endPos := l.endPos()
+	endPos, _ := l.endPos()
 	rangeStart := ast.NewPosition(
 		l.memoryGauge,
 		l.endOffset-1,
